@@ -352,35 +352,39 @@ def loadUserOrig (us : UserSide U) (fs : FS) (env : Env) (arg : Option Path) : O
     else if parentNone p then .panic "path should contain a filename"
     else us.file fs p
 
+/-- `metadata.permissions().readonly()` of an existing file -/
+def Node.readonly : Node → Bool
+  | .file _ ro => ro
+  | _ => false
+
+/-- the user directory as `Model/Loader.lean` sees it: the dictionary at `p`, `uhash.dat` and `chewing.sqlite3` beside it -/
+def userDirOf (openDat : List Nat → Option Loader.UMap) (openLegacySql : List Nat → Option (List Uhash.Rec))
+    (fs : FS) (p : Path) : Loader.UserDir :=
+  { chewingDat := match fs p with
+      | .file b _ => some (match openDat b with
+        | some m => .valid m
+        | none => .corrupt)
+      | .dir _ => some .corrupt
+      | .absent => none
+    uhashDat := match fs (joinPath (parentOf p) uhashFile) with
+      | .file b _ => some b
+      | _ => none
+    sqlite := match fs (joinPath (parentOf p) sqliteFile) with
+      | .file b _ => some (openLegacySql b)
+      | .dir _ => some none
+      | .absent => none }
+
 /-- the standard user side: the extension dispatch of `init_user_dictionary` over `Model/Loader.lean`'s `load` (C12/C19).
     `openDat` = `TrieBuf::open` on the bytes of an existing file, `sqlite` = everything about a `*.sqlite3` user path
     (abstract, feature `sqlite`), `openLegacySql` = `SqliteDictionary::open(..).entries()` of a legacy `chewing.sqlite3`. -/
 def userFileStd (sqliteFeature : Bool) (openDat : List Nat → Option Loader.UMap)
     (openLegacySql : List Nat → Option (List Uhash.Rec)) (sqlite : FS → Path → Option Loader.UMap)
     (fs : FS) (p : Path) : Outcome (Option Loader.UMap) :=
-  let readonly := match fs p with
-    | .file _ ro => ro
-    | _ => false
-  if readonly then .ok none                            -- `ErrorKind::PermissionDenied`
+  if (fs p).readonly then .ok none                     -- `ErrorKind::PermissionDenied`
   else if userExt p = some ['s', 'q', 'l', 'i', 't', 'e', '3'] then
     .ok (if sqliteFeature then sqlite fs p else none)  -- `ErrorKind::Unsupported` without the feature
   else if userExt p = some ['d', 'a', 't'] then
-    let dir := parentOf p
-    let ud : Loader.UserDir :=
-      { chewingDat := match fs p with
-          | .file b _ => some (match openDat b with
-            | some m => .valid m
-            | none => .corrupt)
-          | .dir _ => some .corrupt
-          | .absent => none
-        uhashDat := match fs (joinPath dir uhashFile) with
-          | .file b _ => some b
-          | _ => none
-        sqlite := match fs (joinPath dir sqliteFile) with
-          | .file b _ => some (openLegacySql b)
-          | .dir _ => some none
-          | .absent => none }
-    (Loader.load sqliteFeature ud).map fun l => match l.dict with
+    (Loader.load sqliteFeature (userDirOf openDat openLegacySql fs p)).map fun l => match l.dict with
       | .ok m => some m
       | .error _ => none
   else .ok none                                        -- `ErrorKind::Other`
@@ -470,9 +474,13 @@ def newContextOrig (P : Params D U) (fs : FS) (env : Env) (syspath userpath : Pa
   match syspath, userpath with
   | .notUtf8, _ => .panic "invalid syspath string"
   | _, .notUtf8 =>
-    match newContext P fs env syspath .null with         -- the system half runs first; it can only panic on `builtin`
+    let sp := match syspath with
+      | .str p => p
+      | _ => sysPathFromEnv fs env
+    match sysHalf P fs sp with                           -- the system half runs first
+    | .ok _ => .panic "invalid syspath string"           -- (sic: the message of the second `expect`)
     | .panic s => .panic s
-    | _ => .panic "invalid syspath string"
+    | .outOfFuel => .outOfFuel
   | _, _ => newContext P fs env syspath userpath
 
 /-- `chewing_delete`: NULL is ignored; otherwise the context is dropped (the user dictionary is closed: C10) and the
